@@ -508,6 +508,7 @@ class SX:
         self.fn_transform = None           # callable(FunctionDef) -> FunctionDef: semantic-preserving normalisation before evaluation
         self._fn_cache = {}
         self.div_sites = []                # (BinOp node, denominator term, guards) of every division (track_div_zero)
+        self.identity_compares = []        # (line, text) of `is` / `is not` between two numbers or quantities
         self.arith_log = set()             # (left kind, op, right kind) of every quantity operation interpreted natively
         self.cmp_sides = None              # when a list: (node, op, left term, right term) of every numeric comparison evaluated
         self.guard_sources = {}            # (kind, key) of a guard -> source texts of the tests that produced it
@@ -2084,6 +2085,12 @@ class SX:
 
     def binop(self, op, l: V, r: V, st, node):
         opc = {ast.Add: '+', ast.Sub: '-', ast.Mult: '*', ast.Div: '/', ast.Pow: '**'}.get(type(op))
+        if opc is None and isinstance(op, (ast.FloorDiv, ast.Mod)) and isinstance(l, (N, Dyn)) and isinstance(r, (N, Dyn)):
+            # floor division / remainder of numbers: an opaque function of the operands (exact constants are folded)
+            if l.term.is_const() and r.term.is_const() and r.term.const_value() != 0:
+                a, b = l.term.const_value(), r.term.const_value()
+                return N(Rat.const(a // b if isinstance(op, ast.FloorDiv) else a % b))
+            return N(Rat.atom(self.ctx.fatom('call:floordiv' if isinstance(op, ast.FloorDiv) else 'call:mod', (l.term, r.term))))
         if opc is None:
             raise CannotDecide(f'operator {type(op).__name__}')
         if opc == '**':
@@ -2153,9 +2160,24 @@ class SX:
             operands = [n.left] + list(n.comparators)
             parts = [ast.copy_location(ast.Compare(left=a, ops=[op], comparators=[b]), n)
                      for a, op, b in zip(operands, n.ops, operands[1:])]
-            for mid in operands[1:-1]:
-                if any(isinstance(x, ast.Call) for x in ast.walk(mid)):
-                    raise CannotDecide('chained comparison around a call')
+            if any(isinstance(x, ast.Call) for mid in operands[1:-1] for x in ast.walk(mid)):
+                # a middle operand with a call is evaluated once: bind every operand to a temporary first, then chain
+                res = []
+                for r in self.eval_list(operands, st, frame):
+                    if isinstance(r, Outcome):
+                        res.append(r)
+                        continue
+                    s1, vals = r
+                    s2 = s1.copy()
+                    names = []
+                    for i, v in enumerate(vals):
+                        nm = f'<cmp{id(n)}:{i}>'
+                        s2.env[nm] = v
+                        names.append(ast.copy_location(ast.Name(id=nm, ctx=ast.Load()), n))
+                    parts2 = [ast.copy_location(ast.Compare(left=a, ops=[op], comparators=[b]), n)
+                              for a, op, b in zip(names, n.ops, names[1:])]
+                    res.extend(self.eval_x(ast.copy_location(ast.BoolOp(op=ast.And(), values=parts2), n), s2, frame))
+                return res
             return self.eval_x(ast.copy_location(ast.BoolOp(op=ast.And(), values=parts), n), st, frame)
         op = n.ops[0]
         if isinstance(op, (ast.In, ast.NotIn)) and isinstance(n.comparators[0], (ast.Tuple, ast.List, ast.Set)) \
@@ -2189,6 +2211,11 @@ class SX:
                     return Bv(neg)
                 g = G('isnone', (name,))
                 return Bsym(g.negate() if neg else g)
+            if isinstance(l, (N, Dyn, Q)) and isinstance(r, (N, Dyn, Q)):
+                # identity of two numbers / quantities: CPython answers like == only for cached small ints, so the decision
+                # is not a function of the values (`len(a) is not len(b)` is False up to 256 and True above)
+                self.identity_compares.append((getattr(n, 'lineno', 0), ast.unparse(n)[:80]))
+                return Bsym(G('opaque', (f'identity:{ast.unparse(n)[:60]}',)))
             g = G('eq', tuple(sorted((self.show(l), self.show(r)))))
             return Bsym(g.negate() if neg else g)
         if isinstance(op, (ast.In, ast.NotIn)):
